@@ -23,6 +23,8 @@ type input struct {
 	// suspect marks inputs of the three historical single-datagram crashes; they run isolated in a child
 	// process so that a regression is attributed to exactly this input and reported under its own key.
 	suspect string
+	// unit groups probe inputs that are injected on ONE association (0 = alone)
+	unit int
 }
 
 func (in *input) id() string { return fmt.Sprintf("%s#%d", in.fam, in.idx) }
@@ -305,7 +307,7 @@ func (s hsShape) isComplete() bool { return s.off == 0 && s.flen == s.length && 
 // hangSuspect: a complete handshake message at (or next to) the expected message_seq of an ESTABLISHED
 // endpoint: the post-handshake processing of DTLS 1.3 once spun forever on such a message. Isolated.
 func hangSuspect(gi *genInfo, mseq uint16) bool {
-	return gi.victimEst && (mseq == gi.cur || mseq == gi.cur-1 || mseq == gi.cur+1)
+	return gi.victimEst && gi.vw.is13 && (mseq == gi.cur || mseq == gi.cur-1 || mseq == gi.cur+1)
 }
 
 // isF1Shape: a fragment that makes the message "complete" with total length 0 although no fragment sits
@@ -358,7 +360,7 @@ func hsShapes(gi *genInfo, full bool) []hsShape {
 	}
 	// quick: the full (length x message_seq x offset x fragment_length) product for six types, and a
 	// pairwise-complete covering of all five fields for the remaining types
-	for _, t := range []byte{gi.nextType, 1, 4, 16, 20, 24, 0, 255} {
+	for _, t := range quickTypes(gi) {
 		inner(t)
 	}
 	for _, r := range pairwise([]int{len(hsTypes), len(hsLens), len(mseqs), 4, 4}) {
@@ -367,6 +369,17 @@ func hsShapes(gi *genInfo, full bool) []hsShape {
 		add(hsTypes[r[0]], l, r[2], offs[r[3]], offs[r[4]])
 	}
 	return out
+}
+
+// quickTypes: handshake types whose whole (length x message_seq x offset x fragment_length) product is
+// enumerated in the quick tier: the type expected next, ClientHello, and one unknown type; on an
+// established DTLS 1.3 endpoint the post-handshake types as well.
+func quickTypes(gi *genInfo) []byte {
+	t := []byte{gi.nextType, 1, 255}
+	if gi.victimEst && gi.vw.is13 {
+		t = append(t, 4, 20, 24)
+	}
+	return t
 }
 
 func genHsHdr(gi *genInfo) []*input {
@@ -468,7 +481,7 @@ func genMsgTrunc(gi *genInfo) []*input {
 			seq++
 			in := g.raw(fmt.Sprintf("genuine %s#%d truncated to %d/%d at mseq=cur", world.HSName(m.typ), m.mseq, l, len(m.body)),
 				plain12(22, 0, seq, hsMessage(m.typ, gi.cur, m.body[:l])))
-			if gi.victimEst {
+			if gi.victimEst && gi.vw.is13 && (gi.thorough || l <= 4) {
 				in.suspect = "HANG"
 			}
 		}
@@ -481,7 +494,7 @@ func genMsgTrunc(gi *genInfo) []*input {
 			in := g.raw(fmt.Sprintf("%s body=%x kx=%s at mseq=cur", world.HSName(t), b, gi.kx), plain12(22, 0, seq, hsMessage(t, gi.cur, b)))
 			if t == 16 && !gi.victimIsClient && len(b) <= 3 && gi.kx != "13" {
 				in.suspect = "F3"
-			} else if gi.victimEst {
+			} else if gi.victimEst && gi.vw.is13 && len(b) <= 1 {
 				in.suspect = "HANG"
 			}
 		}
@@ -599,6 +612,7 @@ func structureOffsets(vw view, d []byte) map[int]bool {
 
 func genCorrupt(gi *genInfo) []*input {
 	g := &gen{fam: "corrupt", gi: gi}
+	unitSeq := 0
 	for _, d := range distinctDatagrams(gi) {
 		if !gi.thorough && !gi.toVictim(d) {
 			continue // quick: datagrams addressed to the victim
@@ -655,15 +669,13 @@ func genCorrupt(gi *genInfo) []*input {
 				prev[i] ^= 0x0f ^ 0x10
 			}
 			trials := 256
-			if !gi.thorough {
-				trials = 256 // cheap: keep all trials in both tiers
-			}
+			unitSeq++
 			for t := 0; t < trials; t++ {
 				y := filler(16)
 				y[15] = byte(t)
 				body := append(append(append(append([]byte(nil), filler(16)...), y...), prev...), blk(nb-1)...)
 				in := g.raw(fmt.Sprintf("cbc-pad17 trial %d of genuine datagram #%d record %d", t, d.ID, ri), mk(body, r.Seq+0x2000+uint64(t)))
-				in.class, in.verdict, in.suspect = "protected/cbc-pad17", mustSurvive, "F2"
+				in.class, in.verdict, in.suspect, in.unit = "protected/cbc-pad17", mustSurvive, "F2", unitSeq
 			}
 		}
 	}
@@ -710,8 +722,21 @@ func genAuth(gi *genInfo) []*input {
 			}
 			g.forged(fmt.Sprintf("alert body=%x", b)+ep, &forgeSpec{typ: 21, epoch: e, payload: b}, cl, vd)
 		}
-		// application data of length 0 is valid traffic: the connection must go on
-		g.forged("appdata len=0"+ep, &forgeSpec{typ: 23, epoch: e, payload: nil}, "auth/appdata-empty", mustSurvive)
+		// application data (also of length 0) in the application epoch is valid traffic: the connection must
+		// go on. Under the DTLS 1.3 handshake keys (epoch 2) it is a protocol violation: may abort.
+		for rep := 0; rep < 2; rep++ {
+			for _, n := range []int{0, 1, 16} {
+				switch {
+				case fg.is13 && e < 3:
+					g.forged(fmt.Sprintf("appdata len=%d (#%d) under handshake keys", n, rep)+ep, &forgeSpec{typ: 23, epoch: e, payload: filler(n)}, "auth/appdata-in-handshake-epoch", mayAbort)
+				case !fg.is13 && !gi.victimIsClient && !gi.victimEst:
+					// a DTLS 1.2 client cannot have sent application data before the server's Finished went out
+					g.forged(fmt.Sprintf("appdata len=%d (#%d) before the server finished", n, rep)+ep, &forgeSpec{typ: 23, epoch: e, payload: filler(n)}, "auth/appdata-premature", mayAbort)
+				default:
+					g.forged(fmt.Sprintf("appdata len=%d (#%d)", n, rep)+ep, &forgeSpec{typ: 23, epoch: e, payload: filler(n)}, "auth/appdata-valid", mustSurvive)
+				}
+			}
+		}
 		// inner plaintext of all zeros (no content type): CID records and DTLS 1.3
 		if fg.is13 || len(fg.cid) > 0 {
 			for _, n := range []int{1, 2, 17} {
@@ -768,7 +793,7 @@ func genAuth(gi *genInfo) []*input {
 					}
 					in := g.forged(fmt.Sprintf("%s truncated to %d/%d at mseq=%s", m.name, l, len(m.body), ms.n)+ep,
 						&forgeSpec{typ: 22, epoch: e, payload: hsMessage(m.typ, ms.v, m.body[:l])}, "auth/handshake-message", mayAbort)
-					if gi.victimEst {
+					if gi.victimEst && gi.vw.is13 && (gi.thorough || l <= 2 || l == len(m.body)) {
 						in.suspect = "HANG"
 					}
 				}
@@ -776,6 +801,9 @@ func genAuth(gi *genInfo) []*input {
 		}
 		// handshake fragments as in (ii) inside protected records
 		for _, s := range hsShapes(gi, gi.thorough) {
+			if !gi.thorough && s.typ != gi.nextType && s.typ != 255 && !(gi.victimEst && gi.vw.is13) {
+				continue
+			}
 			in := g.forged(s.String()+ep, &forgeSpec{typ: 22, epoch: e, payload: s.bytes()}, "auth/handshake-fragment", mayAbort)
 			if s.isF1Shape() && s.mseq >= gi.cur {
 				in.suspect = "F1"
@@ -808,7 +836,7 @@ func genFlood(gi *genInfo, which string) []*input {
 		case "epoch":
 			// records of a future epoch (the next one is queueable; further ones are dropped)
 			e := gi.epochNow + 1 + uint16(i%3)
-			if gi.vw.is13 && i%2 == 1 {
+			if gi.vw.is13 {
 				b := append([]byte{0x2c | byte(e&3), byte(i >> 8), byte(i), 0, 24}, filler(24)...)
 				g.raw(fmt.Sprintf("future-epoch unified record #%d", i), b)
 				continue
@@ -829,6 +857,14 @@ func genFlood(gi *genInfo, which string) []*input {
 			e := uint16(1)
 			if gi.epochNow > 1 {
 				e = gi.epochNow
+			}
+			if gi.vw.is13 {
+				if e < 3 {
+					e = 3
+				}
+				b := append([]byte{0x2c | byte(e&3), byte(i >> 8), byte(i), 0, 64}, filler(64)...)
+				g.raw(fmt.Sprintf("application-data-looking unified record #%d epoch=%d", i, e), b)
+				continue
 			}
 			g.raw(fmt.Sprintf("application-data-looking record #%d epoch=%d", i, e), plain12(23, e, uint64(0x600000+i), filler(64)))
 		}
